@@ -52,13 +52,20 @@ def build(rng, cfg, spec, trace, fail_at=None):
         st = pp.optim.strategy
         tight = cfg.get("tight_bounds", False)       # bounds close enough to bind within a few trials
         hp = cfg.get("hyper", {})
-        strat = {"Constant": lambda: st.Constant(damping=cfg["damping"]),
+        strat = {"default": lambda: None,
+                 "Constant": lambda: st.Constant(damping=cfg["damping"]),
                  "Adaptive": lambda: st.Adaptive(damping=cfg["damping"], min=cfg["damping"] * (0.3 if tight else 1e-3),
                                                  max=cfg["damping"] * 5 if tight else 1e16, **hp),
                  "TrustRegion": lambda: st.TrustRegion(radius=1 / cfg["damping"], min=(0.3 / cfg["damping"]) if tight else 1e-12,
                                                        max=(5 / cfg["damping"]) if tight else 1e16, **hp)}[cfg["strategy"]]()
-        opt = pp.optim.LM(model, solver=solver, strategy=optspy.SpyStrategy(strat, trace), kernel=kernels, corrector=correctors,
-                          reject=cfg["reject"], min=cfg["min"], max=cfg["max"], vectorize=cfg["vectorize"])
+        if cfg["strategy"] == "default":
+            # the strategy argument omitted: the documented default TrustRegion(); the spy is put around whatever LM created
+            opt = pp.optim.LM(model, solver=solver, kernel=kernels, corrector=correctors,
+                              reject=cfg["reject"], min=cfg["min"], max=cfg["max"], vectorize=cfg["vectorize"])
+            opt.strategy = optspy.SpyStrategy(opt.strategy, trace)
+        else:
+            opt = pp.optim.LM(model, solver=solver, strategy=optspy.SpyStrategy(strat, trace), kernel=kernels, corrector=correctors,
+                              reject=cfg["reject"], min=cfg["min"], max=cfg["max"], vectorize=cfg["vectorize"])
     optref[0] = opt
     optspy.attach(opt, trace)
     return opt
